@@ -7,8 +7,16 @@ package hevc
 // C05: the record parser indexes the fixed part of an HEVCDecoderConfigurationRecord (offsets 27..32 after
 // the 5-byte tag header); both entry points must have refused shorter payloads.
 //@ func parseVpsSpsPpsFromRecord
-//@   props C05
+//@   props C05 C19
 //@   requires len(payload) >= 33
+//@   ensures [C19.hevc.parse.vps] err == nil ==> payload[28]&0x3f == 32 && len(vps) == int(uint16(payload[31])<<8 | uint16(payload[32])) && 33 + len(vps) <= len(payload) && sameSlice(vps, payload[33 : 33+len(vps)])
+//@   ensures [C19.hevc.parse.sps] err == nil ==> payload[33+len(vps)]&0x3f == 33 && len(sps) == int(uint16(payload[36+len(vps)])<<8 | uint16(payload[37+len(vps)])) && 38 + len(vps) + len(sps) <= len(payload) && sameSlice(sps, payload[38+len(vps) : 38+len(vps)+len(sps)])
+//@   let pv = len(vps)
+//@   let ps = len(sps)
+//@   ensures [C19.hevc.parse.pps.type] err == nil ==> payload[38+pv+ps]&0x3f == 34
+//@   ensures [C19.hevc.parse.pps.len] err == nil ==> len(pps) == int(uint16(payload[41+pv+ps])<<8 | uint16(payload[42+pv+ps]))
+//@   ensures [C19.hevc.parse.pps.in] int: err == nil ==> 43 + pv + ps + len(pps) <= len(payload)
+//@   ensures [C19.hevc.parse.pps.slice] err == nil ==> sameSlice(pps, payload[43+pv+ps : 43+pv+ps+len(pps)])
 //@ end
 
 // The entry points are verified on their own (callers use the contract only).
@@ -19,4 +27,23 @@ package hevc
 //@ func ParseVpsSpsPpsFromSeqHeaderWithoutMalloc
 //@   props C05
 //@   opaque
+//@ end
+
+//@ pure hbe16(b []byte, i int) uint16 = uint16(b[i])<<8 | uint16(b[i+1])
+
+// C19: layout of the parameter-set arrays of the HEVCDecoderConfigurationRecord built for a sequence header:
+// three arrays (VPS 32, SPS 33, PPS 34), one NAL unit each, 16-bit length, the bytes of the parameter set.
+// (The fixed fields before offset 27 are written around two parser calls whose frame is not under contract.)
+//@ func BuildSeqHeaderFromVpsSpsPps
+//@   props C19
+//@   requires len(vps) < 65536 && len(sps) < 65536 && len(pps) < 65536
+//@   let v = len(vps)
+//@   let s = len(sps)
+//@   ensures [C19.hevc.build.len] result1 == nil ==> len(result0) == 43 + len(vps) + len(sps) + len(pps)
+//@   ensures [C19.hevc.build.vps] result1 == nil ==> result0[27] == 3 && result0[28] == 32 && hbe16(result0, 29) == 1 && int(hbe16(result0, 31)) == len(vps)
+//@   ensures [C19.hevc.build.vps.bytes] int: result1 == nil ==> forall i in [0, len(vps)) :: result0[33+i] == vps[i]
+//@   ensures [C19.hevc.build.sps] result1 == nil ==> result0[33+v] == 33 && hbe16(result0, 34+v) == 1 && int(hbe16(result0, 36+v)) == len(sps)
+//@   ensures [C19.hevc.build.sps.bytes] int: result1 == nil ==> forall i in [0, len(sps)) :: result0[38+v+i] == sps[i]
+//@   ensures [C19.hevc.build.pps] result1 == nil ==> result0[38+v+s] == 34 && hbe16(result0, 39+v+s) == 1 && int(hbe16(result0, 41+v+s)) == len(pps)
+//@   ensures [C19.hevc.build.pps.bytes] int: result1 == nil ==> forall i in [0, len(pps)) :: result0[43+v+s+i] == pps[i]
 //@ end
